@@ -31,7 +31,7 @@ Proof.
   (* whatever happens next, h1 <= hf *)
   assert (L1f : hle h1 hf).
   { destruct r1 as [v1|e1]; [|inversion Hb; subst; apply hle_set_cache; auto].
-    destruct v1 as [z|fl|b|s|s|l0|dct|f|i|sp l0| |t']; try (inversion Hb; subst; apply hle_set_cache; auto).
+    destruct v1 as [z|fl|b|s|s|l0|dct|f|i|sp l0| |t'|cr ci]; try (inversion Hb; subst; apply hle_set_cache; auto).
     destruct (get h1 t') as [c'|] eqn:G1; [|discriminate].
     destruct (c_cache c') as [rc|] eqn:C1. { inversion Hb; subst; apply hle_set_cache; auto. }
     destruct (existsb (Pos.eqb t') (t::ip)) eqn:Ex; [discriminate|].
@@ -46,7 +46,7 @@ Proof.
     assert (Rc2' := Rc2). destruct Rc2 as (_ & _ & _ & [Ra2|(Rh2 & _ & _)]); [|exfalso; eapply (NotHole h2 c2); eauto; eexists; eauto].
     eapply hrel_set; eauto. }
   destruct r1 as [v1|e1]; [|inversion Hb; subst; eexists; split; [reflexivity|apply SetOK; auto]].
-  destruct v1 as [z|fl|b|s|s|l0|dct|f|i|sp l0| |t']; try (inversion Hb; subst; eexists; split; [reflexivity|apply SetOK; auto]).
+  destruct v1 as [z|fl|b|s|s|l0|dct|f|i|sp l0| |t'|cr ci]; try (inversion Hb; subst; eexists; split; [reflexivity|apply SetOK; auto]).
   destruct (get h1 t') as [c'|] eqn:G1; [|discriminate].
   destruct (hrel_get _ _ _ _ _ Hh1 G1) as (c'' & G1' & _ & Ec1 & _). rewrite G1', <- Ec1.
   destruct (c_cache c') as [rc|] eqn:C1. { inversion Hb; subst. eexists; split; [reflexivity|apply SetOK; auto]. }
